@@ -26,7 +26,8 @@ impl EventSource for RawIoBlock<'_> {
     fn subscribe(&mut self, co: CoroutineImpl) {
         #[cfg(feature = "io_cancel")]
         let handle = co_get_handle(&co);
-        let io_data = self.io_data;
+        // the socket may be gone as soon as the coroutine is stored: use our own reference
+        let io_data = (*self.io_data).clone();
         io_data.co.store(co);
         // there is event, re-run the coroutine
         if io_data.io_flag.load(Ordering::Acquire) != 0 {
@@ -38,7 +39,7 @@ impl EventSource for RawIoBlock<'_> {
         {
             let cancel = handle.get_cancel();
             // register the cancel io data
-            cancel.set_io((*io_data).clone());
+            cancel.set_io(io_data);
             // re-check the cancel status
             if cancel.is_canceled() {
                 unsafe { cancel.cancel() };
